@@ -225,7 +225,7 @@ def run(tier):
         raise core.ToolError(f"AggGen failed: {r.error or r.violated}")
     cases = r.printed("CASE")
     core.log(f"[C09] {len(cases)} aggregate requests from TLC")
-    splits = ["1shard-mem", "1shard-l0", "3shards-mixed"] if q else list(SPLITS)
+    splits = ["1shard-mem", "1shard-l0", "3shards-mixed", "2shards-mem", "3shards-l1"] if q else list(SPLITS)
     if q and len(cases) > 2500:
         cases = rnd.sample(cases, 2500)
     kept, per = [], Counter()
